@@ -9,6 +9,7 @@ import (
 	"context"
 	"errors"
 	"fmt"
+	"math"
 	"os"
 	"runtime"
 	"sort"
@@ -176,7 +177,7 @@ func fmtMrecs(in []mrec) string {
 func fmtScripts(cs []script) string {
 	s := make([]string, len(cs))
 	for i, c := range cs {
-		s[i] = lib.L(lib.I(c.kind), lib.I(c.t), lib.I(c.e), lib.Bool(c.ok), lib.I(c.ts), lib.I(c.off))
+		s[i] = lib.L(lib.I(c.kind), lib.I(c.t), lib.I(c.e), lib.I(resCode(c)), lib.I(c.ts), lib.I(c.off))
 	}
 	return lib.L(s...)
 }
@@ -200,6 +201,7 @@ type callResult struct {
 	cls   int64 // -1 = still running
 	ret   int64
 	ms    []measurements.Measurement
+	msRet []measurements.Measurement // copy of ms taken at the instant the call returned
 	comps []int64
 }
 
@@ -238,6 +240,7 @@ func prepareCall(c *client.ReferenceClockClient, rd round) (res *callResult, run
 		d := unscale(time.Since(start))
 		res.mu.Lock()
 		res.cls, res.ret = 0, d
+		res.msRet = append([]measurements.Measurement(nil), res.ms...)
 		res.mu.Unlock()
 	}
 	teardown = func() {
@@ -364,7 +367,7 @@ func bubble(f func()) (deadlock, hung bool) {
 	}
 }
 
-const hangLimit = 20 * time.Second
+const hangLimit = 120 * time.Second
 
 // cases that left goroutines behind for ever; after many of them the harness stops early
 // (the dumps get slow and the point is made)
@@ -384,10 +387,24 @@ func stopAfterHang() {
 	os.Exit(0)
 }
 
+// snapshot: the slice reported is the copy taken at the return instant (if the call returned)
 func (r *callResult) snapshot() (cls, ret int64, ms string, comps []int64) {
 	r.mu.Lock()
 	defer r.mu.Unlock()
+	if r.msRet != nil {
+		return r.cls, r.ret, fmtMs(r.msRet), append([]int64(nil), r.comps...)
+	}
 	return r.cls, r.ret, fmtMs(r.ms), append([]int64(nil), r.comps...)
+}
+
+// lateWrite: was the caller's slice written to after the call had returned?
+func (r *callResult) lateWrite() int64 {
+	r.mu.Lock()
+	defer r.mu.Unlock()
+	if r.msRet != nil && fmtMs(r.msRet) != fmtMs(r.ms) {
+		return 1
+	}
+	return 0
 }
 
 func runCollect(tags string, rd round, probes []int64) {
@@ -436,7 +453,7 @@ func runCollect(tags string, rd round, probes []int64) {
 	}()
 	w.Case("collect", tags,
 		lib.V(fmtCtx(rd), fmtScripts(rd.clocks), fmtMrecs(rd.ms0), lib.IL(probes)),
-		lib.V(lib.I(cls), lib.I(ret), ms, lib.IL(comps), lib.IL(counts), lib.I(after)))
+		lib.V(lib.I(cls), lib.I(ret), ms, lib.IL(comps), lib.IL(counts), lib.I(after), lib.I(res.lateWrite())))
 }
 
 // runHistory makes the calls ops on ONE collector object.  Sequential histories start each
@@ -538,7 +555,7 @@ func runHistory(kind, tags string, ops []round, tend int64, variant int) {
 				comps = nil
 			}
 		}
-		obs[i] = lib.L(lib.I(cls), lib.I(ret), ms, lib.IL(comps))
+		obs[i] = lib.L(lib.I(cls), lib.I(ret), ms, lib.IL(comps), lib.I(results[i].lateWrite()))
 	}
 	w.Case(kind, tags, lib.V(lib.L(as...), lib.I(tend), lib.I(int64(variant))), lib.V(lib.L(obs...), lib.I(cnt), lib.I(after)))
 }
@@ -638,7 +655,31 @@ func genClock(r *lib.Rng, D int64, id int64) script {
 			s.e = 0
 		}
 	}
+	if !s.ok { // failing clocks fail in different ways, also with the context's own errors
+		s.ek = lib.Pick(r, int64(0), 0, 2, 4)
+		if s.kind == 2 && r.Bool() {
+			s.ek = 3
+		}
+	}
+	// results that look like "nothing": the zero time and/or a zero offset (what sync.Run's local clock reports)
+	switch r.Intn(16) {
+	case 0:
+		s.ts = zeroTS
+	case 1:
+		s.off = 0
+	case 2:
+		s.ts, s.off = zeroTS, 0
+	}
 	return s
+}
+
+// a clock may only fail with ctx.Err() if it waits for the context to be done
+func normalise(cs []script) {
+	for k := range cs {
+		if cs[k].ek == 3 && cs[k].kind != 2 {
+			cs[k].ek = 0
+		}
+	}
 }
 
 // genRound generates clocks around an instant X at which the context is to be done and
@@ -652,11 +693,31 @@ func genRound(r *lib.Rng, maxn int) round {
 	}
 	X := genDeadline(r)
 	rd := round{F: never}
+	wide := maxn >= 7 && r.Intn(40) == 0
+	if wide { // many clocks, more than 32 of them blocked: the healthy ones must not be starved
+		X = r.Range(4, 2000)
+		n = 34 + r.Intn(67)
+	}
 	for k := 0; k < n; k++ {
 		rd.clocks = append(rd.clocks, genClock(r, X, int64(k)))
 	}
+	if wide {
+		b := 33 + r.Intn(n-33)
+		for k := range rd.clocks {
+			c := &rd.clocks[k]
+			if k < b {
+				c.kind, c.t = lib.Pick(r, int64(4), 4, 0, 3), X+r.Range(1, 3*X)
+			} else {
+				c.kind, c.t, c.ok = 0, r.Range(0, X-1), true
+			}
+		}
+	}
 	// shape the round now and then: everything early / everything late / all at the cancellation
-	switch r.Intn(12) {
+	shape := r.Intn(12)
+	if wide {
+		shape = 11
+	}
+	switch shape {
 	case 0:
 		for k := range rd.clocks {
 			rd.clocks[k].kind, rd.clocks[k].t = 0, r.Range(0, max0(X)-1)
@@ -696,10 +757,19 @@ func genRound(r *lib.Rng, maxn int) round {
 		a, b := r.Intn(n), r.Intn(n)
 		rd.clocks[a].ts, rd.clocks[a].off = rd.clocks[b].ts, rd.clocks[b].off
 	}
+	normalise(rd.clocks)
+	// stale content: distinguishable from every result that has to be stored; now and then it
+	// looks like the result of a clock that fails or is late (which must not be stored)
+	var notStored []script
+	for _, c := range rd.clocks {
+		if !c.ok || ctime(doneAt(rd), c) > doneAt(rd) {
+			notStored = append(notStored, c)
+		}
+	}
 	for k := 0; k < n; k++ {
 		m := mrec{ts: 1600000000000000000 + int64(k), off: -5000 - int64(k), err: r.Intn(5) == 0}
-		if r.Intn(15) == 0 { // stale content that looks like a fresh result
-			x := rd.clocks[r.Intn(n)]
+		if len(notStored) > 0 && r.Intn(15) == 0 {
+			x := notStored[r.Intn(len(notStored))]
 			m = mrec{ts: x.ts, off: x.off, err: false}
 		}
 		rd.ms0 = append(rd.ms0, m)
@@ -737,6 +807,9 @@ func roundTags(rd round) (tags []string, nt bool) {
 	}
 	if len(rd.clocks) == 0 {
 		tags = append(tags, "n0")
+	}
+	if len(rd.clocks) > 32 {
+		tags = append(tags, "wide")
 	}
 	if D0 == 0 {
 		tags = append(tags, "expired")
@@ -916,6 +989,13 @@ func genHistory(r *lib.Rng) {
 // genRace: two or three calls on one collector released at the same instant from a barrier
 func genRace(r *lib.Rng) {
 	k := 2 + r.Intn(2)
+	forceYield := false
+	if cpus := runtime.NumCPU() - 1; k > cpus { // the callers spin on the barrier: they need a CPU each (and one for the releaser)
+		k = cpus
+		if k < 2 {
+			k, forceYield = 2, true
+		}
+	}
 	var ops []round
 	start := r.Range(0, 20)
 	tend := int64(0)
@@ -967,6 +1047,9 @@ func genRace(r *lib.Rng) {
 	case 3:
 		variant |= 3 << 12
 	}
+	if forceYield {
+		variant |= 1 << 12
+	}
 	runHistory("race", tags, ops, tend, variant)
 }
 
@@ -1012,7 +1095,7 @@ func parseVals(s string) []val {
 func scriptsOf(v val) []script {
 	var out []script
 	for _, c := range v.list {
-		out = append(out, script{kind: c.list[0].n, t: c.list[1].n, e: c.list[2].n, ok: c.list[3].n != 0, ts: c.list[4].n, off: c.list[5].n})
+		out = append(out, script{kind: c.list[0].n, t: c.list[1].n, e: c.list[2].n, ok: c.list[3].n == 1, ek: c.list[3].n, ts: c.list[4].n, off: c.list[5].n})
 	}
 	return out
 }
